@@ -286,7 +286,11 @@ func (p *Packer) packWalkFn(root, src, dst string, tarW *tar.Writer, meta *Meta,
 			// If the target is a directory we can recurse into the target
 			// directory by calling the packWalkFn with updated arguments.
 			if resolved.info.IsDir() {
-				return filepath.Walk(resolved.absTarget, p.packWalkFn(root, resolved.absTarget, path, tarW, meta, ignoreRules))
+				// The directory's entries are named after the position the link
+				// has in the archive, which differs from its real path when the
+				// link itself lives inside another dereferenced directory.
+				linkPos := strings.Replace(path, src, dst, 1)
+				return filepath.Walk(resolved.absTarget, p.packWalkFn(root, resolved.absTarget, linkPos, tarW, meta, ignoreRules))
 			}
 
 			// Dereference this symlink by updating the header with the target file
